@@ -53,7 +53,13 @@ func (a *sigAgg) flush(tw *TraceWriter) {
 // renderExpr renders `var x = <code>` / `var y = 1` in a NoFormat File and returns the expression text and
 // the token kinds of the whole body.
 func renderExpr(code *jen.Statement) (expr string, toks []tokn, status string) {
+	return renderExprF(func() *jen.Statement { return code })
+}
+
+// renderExprF: the literal is BUILT inside the protected region as well (a constructor that panics is an observation)
+func renderExprF(mk func() *jen.Statement) (expr string, toks []tokn, status string) {
 	r := safely(func() ([]byte, error) {
+		code := mk()
 		f := jen.NewFile("main")
 		f.NoFormat = true
 		f.Var().Id("x").Op("=").Add(code)
@@ -304,6 +310,14 @@ func numberValues(r *rand.Rand, n int, tw *TraceWriter) []interface{} {
 			prev = x
 		}
 	}
+	// complex numbers whose parts are finite but whose modulus is not representable, and the extremes of both kinds
+	for _, c := range []complex128{complex(1.5e308, 1.5e308), complex(-math.MaxFloat64, math.MaxFloat64), complex(1.7e308, -6e307), complex(math.MaxFloat64, math.MaxFloat64),
+		complex(math.SmallestNonzeroFloat64, -math.SmallestNonzeroFloat64), complex(1e300, -1e300), complex(0, math.MaxFloat64)} {
+		vs = append(vs, c)
+	}
+	for _, c := range []complex64{complex(math.MaxFloat32, math.MaxFloat32), complex(-math.MaxFloat32, 3e38), complex(math.SmallestNonzeroFloat32, 1)} {
+		vs = append(vs, c)
+	}
 	// one numeric value through every type that can hold it, in shuffled type orders (a literal's text must depend on
 	// its own type and value only, not on the literals of other types rendered earlier in the process)
 	for _, x := range []int64{0, 1, 7, 100, 127, 128, 255, 256, 1000, 65535, 100000, 1 << 24, 1<<24 + 1, 1 << 31, 1<<53 + 1} {
@@ -406,7 +420,7 @@ var classReps = map[string][]string{
 }
 
 func observeString(agg *sigAgg, s string) {
-	expr, toks, st := renderExpr(jen.Lit(s))
+	expr, toks, st := renderExprF(func() *jen.Statement { return jen.Lit(s) })
 	mid, isFramed := framed(toks)
 	one := isFramed && len(mid) == 1 && mid[0].tok == token.STRING
 	un, err := strconv.Unquote(expr)
@@ -424,12 +438,18 @@ func observeString(agg *sigAgg, s string) {
 
 func observeRune(agg *sigAgg, r rune, viaFunc bool) {
 	var code *jen.Statement
-	if viaFunc {
-		code = jen.LitRuneFunc(func() rune { return r })
-	} else {
-		code = jen.LitRune(r)
+	built := safely(func() ([]byte, error) { // (a constructor that panics is an observation, not the end of the run)
+		if viaFunc {
+			code = jen.LitRuneFunc(func() rune { return r })
+		} else {
+			code = jen.LitRune(r)
+		}
+		return nil, nil
+	})
+	expr, toks, st := "", []tokn(nil), built.status
+	if built.status == "nil" {
+		expr, toks, st = renderExpr(code)
 	}
-	expr, toks, st := renderExpr(code)
 	mid, isFramed := framed(toks)
 	one := isFramed && len(mid) == 1 && mid[0].tok == token.CHAR
 	un, _, _, err := strconv.UnquoteChar(strings.TrimSuffix(strings.TrimPrefix(expr, "'"), "'"), '\'')
@@ -441,13 +461,12 @@ func observeRune(agg *sigAgg, r rune, viaFunc bool) {
 }
 
 func observeByte(agg *sigAgg, b byte, viaFunc bool) {
-	var code *jen.Statement
-	if viaFunc {
-		code = jen.LitByteFunc(func() byte { return b })
-	} else {
-		code = jen.LitByte(b)
-	}
-	expr, toks, st := renderExpr(code)
+	expr, toks, st := renderExprF(func() *jen.Statement {
+		if viaFunc {
+			return jen.LitByteFunc(func() byte { return b })
+		}
+		return jen.LitByte(b)
+	})
 	_, isFramed := framed(toks)
 	etype, val, ok := evalExpr(expr)
 	rt := ok && (etype == "byte" || etype == "uint8") && constant.Compare(val, token.EQL, constant.MakeInt64(int64(b)))
